@@ -515,3 +515,91 @@ def check_push_pop_predicate(ctx, rep, f, rule='R-PDAFORM.form'):
         return 1
     rep.undecided(rule, f, 'def ' + f.name, 'per-transition predicate not found')
     return 1
+
+
+# ---- the stack step: guard and action decided on a finite model -----------------------------------------------------------
+
+def _run_small(f, env):
+    """value returned (or ('raise',)) by a small function: assignments, if / else, return, raise; expressions through the
+    analyser's evaluator on the concrete values of the finite model"""
+    def run(stmts):
+        for st in stmts:
+            if isinstance(st, ast.Expr):
+                continue
+            if isinstance(st, (ast.Assign, ast.AnnAssign)) and isinstance(st.targets[0] if isinstance(st, ast.Assign) else st.target, ast.Name):
+                tg = st.targets[0] if isinstance(st, ast.Assign) else st.target
+                if st.value is not None:
+                    env[tg.id] = abseval.ev(st.value, env)
+                continue
+            if isinstance(st, ast.If):
+                r = run(st.body) if abseval.ev(st.test, env) else run(st.orelse)
+                if r is not None:
+                    return r
+                continue
+            if isinstance(st, ast.Return):
+                return ('ret', abseval.ev(st.value, env) if st.value is not None else None)
+            if isinstance(st, ast.Raise):
+                return ('raise',)
+            if isinstance(st, ast.Assert):
+                if not abseval.ev(st.test, env):
+                    return ('raise',)
+                continue
+            raise Unsupported('statement ' + type(st).__name__)
+        return None
+    r = run(f.node.body)
+    return r if r is not None else ('ret', None)
+
+
+def check_stack_step(ctx, rep, f_can, f_do, rule='R-MODEL.M9'):
+    """pda_can_pop_push(P, stack, u, v) is true exactly when u is epsilon or u is on top of the stack, and
+    pda_pop_push returns the stack with u popped (unless epsilon) and v pushed (unless epsilon) -- decided for every
+    combination of u in {eps, X}, v in {eps, X, Y} and stack in {[], [X], [Y], [Z, X], [X, Y]} (the functions only compare
+    symbols for equality, so three distinct symbols cover all orderings)."""
+    n = 0
+    stacks = [[], ['X'], ['Y'], ['Z', 'X'], ['X', 'Y']]
+    for f, kind in ((f_can, 'guard'), (f_do, 'action')):
+        ps = [p.arg for p in f.pos_params]
+        if len(ps) != 4:
+            rep.undecided(rule, f, 'def ' + f.name, 'four parameters (P, stack, u, v) expected')
+            continue
+        bad = None
+        cases = 0
+        try:
+            for uu in (EPS, 'X'):
+                for vv in (EPS, 'X', 'Y'):
+                    for st in stacks:
+                        env = {ps[0] + '.epsilon': EPS, ps[1]: list(st), ps[2]: uu, ps[3]: vv, 'RuntimeError': None}
+                        r = _run_small(f, env)
+                        cases += 1
+                        possible = uu == EPS or (bool(st) and st[-1] == uu)
+                        if kind == 'guard':
+                            got = bool(r[1]) if r[0] == 'ret' else None
+                            if got is not possible:
+                                bad = (uu, vv, st, 'answers {} where the step is {}'.format(got, 'possible' if possible else 'impossible'))
+                        else:
+                            if not possible:
+                                continue        # the action is only called under the guard
+                            want = list(st)
+                            if uu != EPS:
+                                want = want[:-1]
+                            if vv != EPS:
+                                want = want + [vv]
+                            if r[0] != 'ret' or list(r[1] if r[1] is not None else ['?']) != want:
+                                bad = (uu, vv, st, 'returns {} where {} is expected'.format('an error' if r[0] == 'raise' else r[1], want))
+                        if bad:
+                            break
+                    if bad:
+                        break
+                if bad:
+                    break
+        except (Unsupported, abseval.Unsupported, TypeError, IndexError, KeyError) as e:
+            rep.undecided(rule, f, 'def ' + f.name, 'body outside the fragment of the finite model: {}'.format(e))
+            continue
+        n += 1
+        if bad:
+            uu, vv, st, what = bad
+            rep.violates(rule, f, 'def ' + f.name, 'stack step {}: for pop {} / push {} on the stack {} (top on the right) the function {}: a transition that replaces the top symbol is '
+                         'treated wrongly, so computations through it are lost or invented'.format(kind, uu or 'epsilon', vv or 'epsilon', st, what))
+        else:
+            rep.holds(rule, f, 'def ' + f.name, 'stack step {} agrees with the definition on all {} cases of the finite model (u, v in epsilon / symbols, five stacks)'.format(kind, cases))
+    return n
